@@ -181,6 +181,7 @@ pub fn oracle(tier: &str, seed: u64) -> (u64, Vec<Finding>) {
         let bs = 1 + r.below(2 * m.max(l).max(n) as u64) as usize;
         let want = naive(&a, &b, ra, ca, rb, cb, ta, tb);
         let input = format!("a={} b={} rows_a={} rows_b={} transpose_a={} transpose_b={} bsize={}", json_floats(&a), json_floats(&b), ra, rb, ta, tb, bs);
+        crumb(&input);
         for (name, got) in [("matmul", catch(|| matmul(&a, &b, ra, rb, ta, tb))), ("matmul_blocked", catch(|| matmul_blocked(&a, &b, ra, rb, ta, tb, bs)))] {
             tried += 1;
             match (&want, &got) {
@@ -219,6 +220,7 @@ pub fn oracle(tier: &str, seed: u64) -> (u64, Vec<Finding>) {
                     let v = ints(&mut r, vl); let vv = Vector::new(v.clone());
                     tried += 2;
                     let inp = format!("matrix={}x{} {} vector={} transpose_matrix={}", rr, cc, json_floats(&md), json_floats(&v), t);
+                    crumb(&inp);
                     // M.v
                     let got = catch(|| if t { mm.t_dot(&vv).v } else { mm.dot(&vv).v });
                     let want: Option<Vec<f64>> = if vl == inner { Some((0..outer).map(|i| (0..inner).map(|k| (if t { md[k * cc + i] } else { md[i * cc + k] }) * v[k]).sum::<f64>() + 0.0).collect()) } else { None };
